@@ -207,14 +207,14 @@ theorem fromU64Prefix_eq' (a0 a1 : ℕ) (h63 : 2 ^ 63 ≤ a0) (hW : a0 < W) (hle
       rw [f1, f2, f4, f5]
       obtain ⟨a3, ha3⟩ : ∃ a3, a3 = a1 - q' * a2 := ⟨_, rfl⟩
       rw [← ha3] at hinv ⊢
-      refine ⟨2 * (a3 + 1), ?_, fun _ _ => ?_⟩
+      refine ⟨2 * (a1 + 1), ?_, fun _ _ => ?_⟩
       rotate_left
       · exact loop_exit LIMIT hL _ _ hinv.o2 (by simp only; omega)
       have hrel : Rel (PSt.mk a1 a2 a3 (2 ^ 32) 1 (1 * LIMIT + q) (q' * LIMIT + (1 + q' * q)) true)
           (St.mk a1 a2 a3 1 0 0 1 1 q q' (1 + q' * q) true) :=
         ⟨rfl, rfl, rfl, by norm_num [LIMIT], by norm_num, rfl, rfl⟩
-      obtain ⟨rl, evl⟩ := pLoop_rel a0 a1 hW hle (a3 + 1) _ _ _ hrel rfl rfl hinv
-      obtain ⟨agf, hfin⟩ := inv_loop a0 a1 LIMIT hL (2 * (a3 + 1)) _ _ hinv
+      obtain ⟨rl, evl⟩ := pLoop_rel a0 a1 hW hle (a1 + 1) _ _ _ hrel rfl rfl hinv
+      obtain ⟨agf, hfin⟩ := inv_loop a0 a1 LIMIT hL (2 * (a1 + 1)) _ _ hinv
       rw [pSelect_eq a0 a1 _ _ agf rl evl hfin hW hle]
 
 theorem fromU64Prefix_eq (a0 a1 : ℕ) (h63 : 2 ^ 63 ≤ a0) (hW : a0 < W) (hle : a1 ≤ a0) :
